@@ -1,0 +1,176 @@
+//! Observation hooks for the external verification harness.
+//!
+//! This module only exists when the crate is built with `--cfg oh_verif`. The
+//! hooks observe (step counters, iterator skips, first-use events of the lazy
+//! tables); they never change a result. The only active behaviours — a step
+//! budget that unwinds with a dedicated payload, and a delay / rendez-vous
+//! before first use of a lazy table — are off until the harness arms them.
+
+use std::cell::{Cell, RefCell};
+use std::sync::atomic::{AtomicU64, AtomicUsize, Ordering};
+use std::sync::Mutex;
+
+use chrono::NaiveDate;
+
+/// Loop sites that report their iterations.
+#[derive(Clone, Copy, Debug, PartialEq, Eq)]
+#[repr(usize)]
+pub enum Site {
+    /// `TimeDomainIterator::consume_until_next_kind`: one schedule consumed.
+    DayStep = 0,
+    /// `TimeDomainIterator::new`: positioning inside the first day.
+    Positioning = 1,
+    /// `TzLocation::datetime`: one minute stepped over a gap.
+    TzMinuteStep = 2,
+    /// `WeekRange::next_change_hint`: one year stepped.
+    WeekHint = 3,
+    /// `intervals_from_bounds`: one interval produced.
+    DateBounds = 4,
+    /// `Schedule::insert`: one range inserted.
+    ScheduleInsert = 5,
+    /// `schedule::IntoIter::next`: one range yielded.
+    ScheduleIter = 6,
+    /// `OpeningHours::schedule_at`: one day evaluated.
+    ScheduleAt = 7,
+}
+
+pub const SITES: usize = 8;
+
+/// Payload used to unwind when an armed budget is exceeded.
+#[derive(Clone, Debug)]
+pub struct BudgetExceeded {
+    pub site: Site,
+    pub ticks: [u64; SITES],
+}
+
+thread_local! {
+    static TICKS: [Cell<u64>; SITES] = const { [const { Cell::new(0) }; SITES] };
+    static BUDGET: [Cell<u64>; SITES] = const { [const { Cell::new(u64::MAX) }; SITES] };
+    static RECORD_SKIPS: Cell<bool> = const { Cell::new(false) };
+    static SKIPS: RefCell<Vec<(NaiveDate, NaiveDate)>> = const { RefCell::new(Vec::new()) };
+}
+
+/// Count one iteration of a loop site; unwind if its armed budget is exceeded.
+#[inline]
+pub fn tick(site: Site) {
+    let count = TICKS.with(|t| {
+        let c = &t[site as usize];
+        c.set(c.get() + 1);
+        c.get()
+    });
+
+    if count > BUDGET.with(|b| b[site as usize].get()) {
+        // Disarm first so that unwinding code cannot trip it again.
+        disarm_budgets();
+        std::panic::panic_any(BudgetExceeded { site, ticks: ticks() });
+    }
+}
+
+/// Reset all step counters of the current thread.
+pub fn reset_ticks() {
+    TICKS.with(|t| t.iter().for_each(|c| c.set(0)));
+}
+
+/// Read the step counters of the current thread.
+pub fn ticks() -> [u64; SITES] {
+    TICKS.with(|t| std::array::from_fn(|i| t[i].get()))
+}
+
+/// Arm a budget for one site on the current thread.
+pub fn arm_budget(site: Site, max_ticks: u64) {
+    BUDGET.with(|b| b[site as usize].set(max_ticks));
+}
+
+/// Remove all budgets of the current thread.
+pub fn disarm_budgets() {
+    BUDGET.with(|b| b.iter().for_each(|c| c.set(u64::MAX)));
+}
+
+/// Start / stop recording iterator skips on the current thread.
+pub fn record_skips(enabled: bool) {
+    RECORD_SKIPS.with(|r| r.set(enabled));
+    SKIPS.with(|s| s.borrow_mut().clear());
+}
+
+/// The interval iterator went from day `from` to day `to` (`to > from`)
+/// without evaluating the days strictly between them.
+#[inline]
+pub fn skip(from: NaiveDate, to: NaiveDate) {
+    if RECORD_SKIPS.with(|r| r.get()) {
+        SKIPS.with(|s| s.borrow_mut().push((from, to)));
+    }
+}
+
+/// Take the skips recorded so far on the current thread.
+pub fn take_skips() -> Vec<(NaiveDate, NaiveDate)> {
+    SKIPS.with(|s| std::mem::take(&mut *s.borrow_mut()))
+}
+
+// --
+// -- Lazy tables
+// --
+
+/// An event around the first use of a lazily initialised table.
+#[derive(Clone, Debug)]
+pub struct LazyEvent {
+    pub table: &'static str,
+    /// "gate" (a thread is about to touch the table), "begin" / "end" (the
+    /// initialiser runs on this thread).
+    pub phase: &'static str,
+    pub thread: std::thread::ThreadId,
+    pub seq: usize,
+}
+
+static LAZY_SEQ: AtomicUsize = AtomicUsize::new(0);
+static LAZY_EVENTS: Mutex<Vec<LazyEvent>> = Mutex::new(Vec::new());
+/// Microseconds slept inside an initialiser ("begin" phase).
+pub static LAZY_INIT_DELAY_US: AtomicU64 = AtomicU64::new(0);
+/// Number of threads to wait for at a gate before letting any through (0: off).
+pub static LAZY_GATE_PARTIES: AtomicUsize = AtomicUsize::new(0);
+static LAZY_GATE_ARRIVED: AtomicUsize = AtomicUsize::new(0);
+/// Whether events are logged at all (the log grows on every access).
+pub static LAZY_LOG: AtomicUsize = AtomicUsize::new(0);
+
+pub fn lazy_event(table: &'static str, phase: &'static str) {
+    if LAZY_LOG.load(Ordering::Relaxed) != 0 {
+        let seq = LAZY_SEQ.fetch_add(1, Ordering::SeqCst);
+
+        LAZY_EVENTS.lock().unwrap().push(LazyEvent {
+            table,
+            phase,
+            thread: std::thread::current().id(),
+            seq,
+        });
+    }
+
+    match phase {
+        "gate" => {
+            let parties = LAZY_GATE_PARTIES.load(Ordering::SeqCst);
+
+            if parties > 0 {
+                LAZY_GATE_ARRIVED.fetch_add(1, Ordering::SeqCst);
+                let start = std::time::Instant::now();
+
+                // Rendez-vous with a time limit: never blocks for ever.
+                while LAZY_GATE_ARRIVED.load(Ordering::SeqCst) < parties
+                    && start.elapsed() < std::time::Duration::from_millis(200)
+                {
+                    std::thread::yield_now();
+                }
+            }
+        }
+        "begin" => {
+            let delay = LAZY_INIT_DELAY_US.load(Ordering::SeqCst);
+
+            if delay > 0 {
+                std::thread::sleep(std::time::Duration::from_micros(delay));
+            }
+        }
+        _ => {}
+    }
+}
+
+/// Take the events logged so far.
+pub fn take_lazy_events() -> Vec<LazyEvent> {
+    std::mem::take(&mut *LAZY_EVENTS.lock().unwrap())
+}
